@@ -4,6 +4,9 @@ import json, os, subprocess
 ROOT = os.path.dirname(os.path.dirname(os.path.abspath(__file__)))
 CHECKS = {
  # id: (engine, technique, level text, level note, design ref)
+ "C02": ("intra", "bounded-exhaustive enumeration of intra-picture syntax trees (sizes, CBP x sparsity shapes, every TCOEF event form, INTRADC, DQUANT sequences, stuffing) decoded by the real decoder and compared with an independent reference decoder",
+         "Small-scope exhaustive: every picture size up to a bound in three header kinds, every coded-block pattern x sparsity shape, every short/escape event over boundary levels and quantizers, every INTRADC code and position, every DQUANT triple from every PQUANT, stuffing/PEI combinations - each decoded through H263State and compared sample by sample with a naive f64 reference decoder under the rounding-boundary rule.",
+         "Reference decoder and VLC tables are transcribed from the Recommendation independently of /repo; scope bounds (size <= 40/80, boundary-value level alphabets) stand for larger pictures.", "3.2"),
  "C07": ("yuv", "exhaustive enumeration of the finite input domain (2^24 colours x 8 code positions) against a fixed-point reference model",
          "Every one of the 16,777,216 (Y,Cb,Cr) triples is pushed through yuv420_to_rgba in every SIMD lane and every remainder slot, alone and among contrasting neighbours, and compared with a 16.16 model derived from the real BT.601 constants; the full result table is checked for monotonicity. The domain is finite, so this is a complete decision for the per-pixel formula.",
          "Trusts the model's derivation of the coefficients from the BT.601 reals and the C07 layout argument (7x1 pictures reach lanes 0..3 and remainder slots 0..2).", "3.7"),
